@@ -19,6 +19,21 @@ type footprintT struct {
 	keys map[string]string // key -> sort
 	old  map[string]bool   // key may be written at a reference that existed before the call / loop iteration
 	all  bool
+	// with all: struct types none of whose fields are written ("everything except", from the
+	// preserves_types frame statements of callees); the explicit keys are written regardless
+	except []string
+}
+
+func intersectStrs(a, b []string) []string {
+	var out []string
+	for _, x := range a {
+		for _, y := range b {
+			if x == y {
+				out = append(out, x)
+			}
+		}
+	}
+	return out
 }
 
 func newFP() *footprintT { return &footprintT{keys: map[string]string{}, old: map[string]bool{}} }
@@ -41,7 +56,14 @@ func (fp *footprintT) merge(o *footprintT) {
 			fp.old[k] = true
 		}
 	}
-	fp.all = fp.all || o.all
+	if o.all {
+		if fp.all {
+			fp.except = intersectStrs(fp.except, o.except)
+		} else {
+			fp.all = true
+			fp.except = append([]string(nil), o.except...)
+		}
+	}
 }
 
 // freshScope: when non-nil, only allocations located in these blocks count as fresh
@@ -594,7 +616,57 @@ func (eng *Engine) callWrites(cc *ssa.CallCommon, sc *Script, fn *ssa.Function, 
 		}
 		return
 	}
-	fp.merge(eng.footprint(callee, sc))
+	// a callee under contract: `modifies nothing` means no writes at all; `preserves_types` removes
+	// the fields of those struct types from what it may write (its frame statement, checked when the
+	// callee is verified or trusted as stated)
+	cfp := eng.footprint(callee, sc)
+	if cc0 := eng.contractFor(callee); cc0 != nil {
+		if cc0.HasMod && len(cc0.Modifies) == 0 {
+			return
+		}
+		if pt, ok := cc0.Flags["preserves_types"]; ok {
+			filtered := newFP()
+			filtered.all = false
+			for k, srt := range cfp.keys {
+				keep := false
+				if strings.HasPrefix(k, "H|") {
+					parts := strings.Split(k, "|")
+					for _, t := range strings.Fields(pt) {
+						if len(parts) >= 3 && (parts[1] == t || strings.HasSuffix(parts[1], "."+t)) {
+							keep = true
+						}
+					}
+				}
+				if !keep {
+					filtered.keys[k] = srt
+					if cfp.old[k] {
+						filtered.old[k] = true
+					}
+				}
+			}
+			if cfp.all {
+				// "everything" minus the preserved types (and minus what the callee's own callees preserve)
+				filtered.all = true
+				filtered.except = append(append([]string(nil), cfp.except...), strings.Fields(pt)...)
+			}
+			cfp = filtered
+		}
+	}
+	fp.merge(cfp)
+	// interior pointers (&x.f, &a[i], &local) handed to the callee: its footprint names the pointee
+	// by the pointee's own type, while the caller stores it inside another object - what the callee
+	// writes through such an argument is a write to the caller-side storage
+	for _, a := range cc.Args {
+		if _, ok := a.Type().Underlying().(*types.Pointer); !ok {
+			continue
+		}
+		switch a.(type) {
+		case *ssa.FieldAddr, *ssa.IndexAddr, *ssa.Alloc:
+			tmp := map[string]string{}
+			eng.ptrRootKeys(a, sc, fn, tmp)
+			fp.absorb(tmp, !addrIsFresh(a))
+		}
+	}
 }
 
 func pureExternal(f *ssa.Function) bool {
